@@ -297,10 +297,28 @@ func TestVerif_C13_rl(t *testing.T) {
 	cnt := c13Counter{}
 	var pendDump []c13RlPending
 	n := verifh.N(3000, 60000)
+	// the witness of theorem old_dump_readline_not_equiv (B = 16, a 20-byte header line), and the
+	// same line shape scaled to the transport's real buffer size, B = 4096
+	witness := []struct {
+		B    int
+		line string
+	}{
+		{16, "X-A: " + strings.Repeat("a", 13) + "\r\n"},
+		{4096, "X-A: " + strings.Repeat("a", 4096) + "\r\n"},
+		{4096, "X-A: " + strings.Repeat("a", 4090) + "\r\n"}, // "\r\n" straddles the buffer edge
+	}
 	for c := 0; c < n; c++ {
 		B := verifh.Pick(r, []int{16, 16, 16, 64, 64, 4096})
 		useK := r.Intn(4) == 0
 		var data strings.Builder
+		if c < len(witness) {
+			B, useK = witness[c].B, false
+			data.WriteString(witness[c].line)
+			chunks, errs := []string{data.String()}, []int{0}
+			ops := []string{"S", "L"}
+			c13RlCase(s, cnt, &pendDump, B, data.String(), chunks, errs, ops)
+			continue
+		}
 		nl := 1 + r.Intn(6)
 		if B == 4096 {
 			nl = 1 + r.Intn(3)
@@ -332,42 +350,7 @@ func TestVerif_C13_rl(t *testing.T) {
 				}
 			}
 		}
-		plain := c13RunOps(B, false, chunks, errs, ops)
-		dumped := c13RunOps(B, true, chunks, errs, ops)
-		base := strconv.Itoa(B) + " %s " + verifh.HexList(chunks) + " " + verifh.IntList(errs) + " " + strings.Join(ops, ",")
-		human := fmt.Sprintf("B=%d ops=%v stream=%q (%d reads)", B, ops, c13Clip(data.String(), 120), len(chunks))
-		nontriv := plain.sawPrefix || strings.Contains(plain.results, ":o") || strings.Contains(plain.results, "toolarge") || strings.Contains(plain.results, "noprogress")
-		cnt.add(s, "B="+strconv.Itoa(B))
-		if plain.sawPrefix {
-			cnt.add(s, "line>=B")
-		}
-		if plain.ate > 0 {
-			cnt.add(s, "skipSpace-ate")
-		}
-		for _, k := range []string{"eof", "toolarge", "noprogress", ":o"} {
-			if strings.Contains(plain.results, k) {
-				cnt.add(s, "err"+k)
-			}
-		}
-		s.Case("c13rl "+fmt.Sprintf(base, "plain"), plain.answer, true, "", nontriv, "plain "+human)
-		// oracle on the dump run
-		ok := dumped.results == plain.results && dumped.rest == plain.rest && dumped.dumpsSame
-		full := data.String()
-		wantDump := full[:len(full)-len(plain.rest)]
-		if !strings.HasSuffix(full, plain.rest) || dumped.dumped != wantDump {
-			ok = false
-		}
-		class := ""
-		switch {
-		case plain.sawPrefix:
-			class = "h1-resp-line-exceeds-buffer"
-		case plain.ate > 0:
-			class = "h1-resp-fold-space-not-dumped"
-		}
-		// The known findings are recognised by their exact behaviour, not only by the input
-		// class: the class is kept only when the implementation answers like the model of the
-		// UNPATCHED closure (`dumpold`); any other wrong answer on the same input alarms.
-		pendDump = append(pendDump, c13RlPending{"c13rl " + fmt.Sprintf(base, "dump"), "c13rl " + fmt.Sprintf(base, "dumpold"), dumped.answer, ok, class, nontriv, "dump " + human})
+		c13RlCase(s, cnt, &pendDump, B, data.String(), chunks, errs, ops)
 	}
 	oldLines := make([]string, len(pendDump))
 	for i, p := range pendDump {
@@ -398,6 +381,45 @@ type c13Counter map[string]int
 func (c c13Counter) add(s *verifh.Session, k string) {
 	s.Count(k)
 	c[k]++
+}
+
+// c13RlCase runs one input with dump off and on and queues both for the model.
+func c13RlCase(s *verifh.Session, cnt c13Counter, pend *[]c13RlPending, B int, full string, chunks []string, errs []int, ops []string) {
+	plain := c13RunOps(B, false, chunks, errs, ops)
+	dumped := c13RunOps(B, true, chunks, errs, ops)
+	base := strconv.Itoa(B) + " %s " + verifh.HexList(chunks) + " " + verifh.IntList(errs) + " " + strings.Join(ops, ",")
+	human := fmt.Sprintf("B=%d ops=%v stream=%q (%d reads)", B, ops, c13Clip(full, 120), len(chunks))
+	nontriv := plain.sawPrefix || strings.Contains(plain.results, ":o") || strings.Contains(plain.results, "toolarge") || strings.Contains(plain.results, "noprogress")
+	cnt.add(s, "B="+strconv.Itoa(B))
+	if plain.sawPrefix {
+		cnt.add(s, "line>=B")
+	}
+	if plain.ate > 0 {
+		cnt.add(s, "skipSpace-ate")
+	}
+	for _, k := range []string{"eof", "toolarge", "noprogress", ":o"} {
+		if strings.Contains(plain.results, k) {
+			cnt.add(s, "err"+k)
+		}
+	}
+	s.Case("c13rl "+fmt.Sprintf(base, "plain"), plain.answer, true, "", nontriv, "plain "+human)
+	// oracle on the dump run
+	ok := dumped.results == plain.results && dumped.rest == plain.rest && dumped.dumpsSame
+	wantDump := full[:len(full)-len(plain.rest)]
+	if !strings.HasSuffix(full, plain.rest) || dumped.dumped != wantDump {
+		ok = false
+	}
+	class := ""
+	switch {
+	case plain.sawPrefix:
+		class = "h1-resp-line-exceeds-buffer"
+	case plain.ate > 0:
+		class = "h1-resp-fold-space-not-dumped"
+	}
+	// The known findings are recognised by their exact behaviour, not only by the input
+	// class: the class is kept only when the implementation answers like the model of the
+	// UNPATCHED closure (`dumpold`); any other wrong answer on the same input alarms.
+	*pend = append(*pend, c13RlPending{"c13rl " + fmt.Sprintf(base, "dump"), "c13rl " + fmt.Sprintf(base, "dumpold"), dumped.answer, ok, class, nontriv, "dump " + human})
 }
 
 type c13RlPending struct {
